@@ -130,12 +130,12 @@ def in_path(i):
     return f'in/s{i}.txt'
 
 
-def mk_case(spec, pool, behav=None, sched=None, runs=1, missing=(), absent_outputs=False, label=''):
+def mk_case(spec, pool, behav=None, sched=None, runs=1, missing=(), absent_outputs=False, label='', touch_inputs=False):
     n = spec['n']
     behav = behav or [{} for _ in range(n)]
     behav = [{'rc': b.get('rc', 0), 'sleep_ms': b.get('sleep_ms', 0), 'out': b.get('out', 0), 'err': b.get('err', 0)} for b in behav]
     return {'spec': spec, 'pool': pool, 'behav': behav, 'sched': sched, 'runs': runs, 'missing': sorted(missing),
-            'absent_outputs': bool(absent_outputs), 'label': label}
+            'absent_outputs': bool(absent_outputs), 'label': label, 'touch_inputs': bool(touch_inputs)}
 
 
 def case_key(case):
@@ -285,6 +285,13 @@ def run_case(ctx, case, hook=False, timeout=20, keep=False):
             pass
     obs = []
     for r in range(case.get('runs', 1)):
+        if r > 0 and case.get('touch_inputs'):
+            # same bytes, new mtime: the superficial comparison reports a change, the thorough one does not
+            for i in range(spec['n']):
+                pth = os.path.join(root, in_path(i))
+                if spec['inputs'][i] and os.path.exists(pth):
+                    st = os.stat(pth)
+                    os.utime(pth, ns=(st.st_atime_ns + 2_000_000_000, st.st_mtime_ns + 2_000_000_000))
         jp = os.path.join(root, '.ctl', 'journal')
         for pth in (jp, trace_path):
             try:
@@ -586,6 +593,32 @@ def run_family(ctx, stream, cases, own, hook=False, timeout=20, workers=8, valid
         for case, obs, error in ex.map(work, cases):
             results.append((case, obs, error))
     chk.extra['programs'] = chk.extra.get('programs', 0) + len(distinct)
+    # A timeout is only evidence of a hang if it can be confirmed: the machine is shared, and a stall of the whole
+    # machine (observed once: 420 s) makes every run in flight exceed its timeout.  A run that timed out is repeated
+    # alone; it is judged by the repetition unless that times out as well.
+    confirmed = []
+    genuine_kinds = set()
+    for case, obs, error in results:
+        kind = 'cycle' if has_cycle(case['spec']) else signature(case, {'property': 'C11', 'clause': 'terminates'})['kind']
+        if not error and any(o['timed_out'] for o in obs) and kind not in genuine_kinds:
+            again = None
+            for attempt in range(2):
+                try:
+                    again = run_case(ctx, case, hook=hook, timeout=timeout)
+                except Exception:
+                    again = None
+                    break
+                if not any(o['timed_out'] for o in again):
+                    break
+            if again is not None and not any(o['timed_out'] for o in again):
+                st['unconfirmed_timeouts'] = st.get('unconfirmed_timeouts', 0) + 1
+                chk.notes.append(f'{stream}: a run exceeded its timeout ({max(o["wall"] for o in obs)} s) but terminated normally when repeated '
+                                 f'alone; judged by the repetition (machine stall)')
+                obs = again
+            else:
+                genuine_kinds.add(kind)       # reproduced: further timeouts of this kind are not repeated
+        confirmed.append((case, obs, error))
+    results = confirmed
     first = {}
     to_validate = []
     for case, obs, error in results:
